@@ -194,6 +194,12 @@ func (b *Bubble) release(g *G) {
 	close(g.ch)
 }
 
+// pointDisabled: "auto." in the set switches off every automatically inserted
+// point at once.
+func pointDisabled(set map[string]bool, pt string) bool {
+	return set[pt] || (set["auto."] && strings.HasPrefix(pt, "auto."))
+}
+
 func mix(h uint64, s string) uint64 {
 	f := fnv.New64a()
 	var buf [8]byte
@@ -261,7 +267,7 @@ func (b *Bubble) loop(clients []Client) {
 			continue
 		}
 		// A disabled hook point does not consume a decision.
-		if r := b.running; r != nil && r.parked && b.cfg.Disabled[r.point] && b.enabled(r) {
+		if r := b.running; r != nil && r.parked && pointDisabled(b.cfg.Disabled, r.point) && b.enabled(r) {
 			out.Forced++
 			stats.point(r.point)
 			b.release(r)
